@@ -761,7 +761,7 @@ theorem lookup_eq_absLookup (f : Frame) (L : Nat) (wf : WF f L) (u : UniqueNames
       have hn : x.name = n := by simpa [entry] using hxe
       have := wf.mapTotal x hx
       rw [hn, hb] at this; cases this
-    rw [this]; rfl
+    rw [this]
 
 theorem select_abs_pure (f : Frame) (L : Nat) (wf : WF f L) (u : UniqueNames f) (names : List String)
     (he : f.err = none) (hc : checkColumns f names = true) :
@@ -771,5 +771,173 @@ theorem select_abs_pure (f : Frame) (L : Nat) (wf : WF f L) (u : UniqueNames f) 
   congr 1
   funext n
   exact lookup_eq_absLookup f L wf u n
+
+theorem pos_eq_findIdx (f : Frame) (L : Nat) (wf : WF f L) (u : UniqueNames f) (n : String) :
+    (f.byName n).map (·.pos) = f.abs.findIdx? (·.1 == n) := by
+  rw [abs_eq, List.findIdx?_map]
+  have hfun : ((fun e : Entry => e.1 == n) ∘ entry f.index) = fun c : NCol => c.name == n := rfl
+  rw [hfun]
+  cases hb : f.byName n with
+  | some x =>
+    obtain ⟨h1, h2⟩ := wf.mapOk n x hb
+    have hxl : x.pos < f.cols.length := by
+      rcases Nat.lt_or_ge x.pos f.cols.length with h | h
+      · exact h
+      · rw [List.getElem?_eq_none h] at h1; cases h1
+    have e2 : f.cols[x.pos] = x := by
+      rw [List.getElem?_eq_getElem hxl] at h1; exact Option.some.inj h1
+    symm
+    simp only [Option.map_some]
+    rw [List.findIdx?_eq_some_iff_getElem]
+    refine ⟨hxl, by simp [e2, h2], ?_⟩
+    intro j hj hp
+    have hjl : j < f.cols.length := by omega
+    have hmem : f.cols[j] ∈ f.cols := List.getElem_mem hjl
+    have hbn := byName_of_mem wf u hmem
+    have hnm : f.cols[j].name = n := by simpa using hp
+    rw [hnm, hb] at hbn
+    have hx : x = f.cols[j] := Option.some.inj hbn
+    have := wf.pos j x (by rw [List.getElem?_eq_getElem hjl, hx])
+    omega
+  | none =>
+    symm
+    simp only [Option.map_none]
+    rw [List.findIdx?_eq_none_iff]
+    intro x hx
+    cases hxe : (x.name == n) with
+    | false => rfl
+    | true =>
+      have hn : x.name = n := by simpa using hxe
+      have := wf.mapTotal x hx
+      rw [hn, hb] at this; cases this
+
+/-- `Copy` on the `abs` list alone: the first entry named `src` is written under `dst` at the place of
+    the first entry named `dst`, or appended -/
+theorem copy_abs_pure (f : Frame) (L : Nat) (wf : WF f L) (u : UniqueNames f) (dst src : String)
+    (he : f.err = none) (hs : (f.byName src).isSome = true) (hne : dst ≠ src) (hn : checkName dst = true) :
+    (copy f dst src).abs = absCopy f.abs dst src := by
+  cases hb : f.byName src with
+  | none => rw [hb] at hs; cases hs
+  | some c =>
+    have hl : lookup f src = some (entry f.index c) := by simp [lookup, hb]
+    rw [(copy_abs_lookup f L wf dst src _ he hl hne hn).1]
+    unfold absCopy
+    rw [← lookup_eq_absLookup f L wf u src, hl, pos_eq_findIdx f L wf u dst]
+
+/-! ## a concrete instance: the hypotheses are satisfiable, the operations compute -/
+
+def exA : NCol := ⟨"a", 0, ⟨.int, [.int 10, .int 11, .int 12]⟩⟩
+def exB : NCol := ⟨"b", 1, ⟨.bool, [.bool true, .bool false, .bool true]⟩⟩
+/-- two columns of physical length 3, rows in the order 2,0,1 -/
+def exF : Frame :=
+  { cols := [exA, exB]
+    byName := fun n => if n = "a" then some exA else if n = "b" then some exB else none
+    index := [2, 0, 1] }
+
+theorem exF_wf : WF exF 3 := by
+  constructor
+  · intro i c h
+    match i with
+    | 0 => simp [exF] at h; subst h; rfl
+    | 1 => simp [exF] at h; subst h; rfl
+    | i + 2 => simp [exF] at h
+  · intro n c h
+    simp only [exF] at h
+    split at h
+    · cases h; rename_i hn; subst hn; exact ⟨rfl, rfl⟩
+    · split at h
+      · cases h; rename_i hn; subst hn; exact ⟨rfl, rfl⟩
+      · cases h
+  · intro c hc
+    simp only [exF, List.mem_cons, List.not_mem_nil, or_false] at hc
+    rcases hc with h | h <;> subst h <;> decide +kernel
+  · intro c hc
+    simp only [exF, List.mem_cons, List.not_mem_nil, or_false] at hc
+    rcases hc with h | h <;> subst h <;> rfl
+  · intro p hp
+    simp only [exF, List.mem_cons, List.not_mem_nil, or_false] at hp
+    omega
+  · decide
+
+theorem exF_unique : UniqueNames exF := by
+  show (exF.cols.map (·.name)).Nodup
+  decide +kernel
+
+/-- hypotheses of `slice_wf`, `slice_abs` -/
+example : WF exF 3 ∧ exF.err = none ∧ (0 : Int) ≤ 1 ∧ (1 : Int) ≤ 3 ∧ (3 : Int) ≤ (exF.index.length : Int) :=
+  ⟨exF_wf, rfl, by decide, by decide, by decide⟩
+example : (slice exF 1 3).abs =
+    [("a", .int, [some (.int 10), some (.int 11)]), ("b", .bool, [some (.bool true), some (.bool false)])] := by
+  decide +kernel
+/-- hypothesis of `slice_err` -/
+example : exF.err = none ∧ ¬ ((0 : Int) ≤ 2 ∧ (2 : Int) ≤ 4 ∧ (4 : Int) ≤ (exF.index.length : Int)) :=
+  ⟨rfl, by decide⟩
+example : (slice exF 2 4).err = some .badSlice := by decide +kernel
+
+/-- hypotheses of `select_wf`, `select_abs`, `select_names`, `select_unique`, `select_abs_pure` -/
+example : WF exF 3 ∧ UniqueNames exF ∧ exF.err = none ∧ checkColumns exF ["b", "a"] = true ∧ ["b", "a"].Nodup :=
+  ⟨exF_wf, exF_unique, rfl, by decide +kernel, by decide +kernel⟩
+example : (select exF ["b", "a"]).abs =
+    [("b", .bool, [some (.bool true), some (.bool true), some (.bool false)]),
+     ("a", .int, [some (.int 12), some (.int 10), some (.int 11)])] := by
+  decide +kernel
+example : (select exF ["b", "a"]).cols.map (·.pos) = [0, 1] := by decide +kernel
+/-- duplicates are allowed in `select_wf` / `select_abs` -/
+example : (select exF ["a", "a"]).abs.map (·.1) = ["a", "a"] := by decide +kernel
+/-- hypothesis of `select_err` -/
+example : exF.err = none ∧ checkColumns exF ["a", "zzz"] = false := ⟨rfl, by decide +kernel⟩
+
+/-- hypotheses of `drop_wf`, `drop_abs`, `drop_abs_general`, `drop_unique` -/
+example : WF exF 3 ∧ UniqueNames exF ∧ exF.err = none ∧ ["a"] ≠ [] ∧ checkColumns exF ["a"] = true :=
+  ⟨exF_wf, exF_unique, rfl, by decide +kernel, by decide +kernel⟩
+example : (drop exF ["a"]).abs = [("b", .bool, [some (.bool true), some (.bool true), some (.bool false)])] := by
+  decide +kernel
+example : (drop exF ["zzz"]).err = some .unknownCol := by decide +kernel
+
+/-- hypotheses of `copy_wf`, `copy_abs`, `copy_abs_lookup`, `copy_lookup`, `copy_abs_pure`, `copy_unique` -/
+example : WF exF 3 ∧ UniqueNames exF ∧ exF.err = none ∧ exF.byName "a" = some exA ∧ "c" ≠ "a" ∧
+    checkName "c" = true :=
+  ⟨exF_wf, exF_unique, rfl, by decide +kernel, by decide +kernel, by decide +kernel⟩
+example : (copy exF "c" "a").abs =
+    [("a", .int, [some (.int 12), some (.int 10), some (.int 11)]),
+     ("b", .bool, [some (.bool true), some (.bool true), some (.bool false)]),
+     ("c", .int, [some (.int 12), some (.int 10), some (.int 11)])] := by
+  decide +kernel
+/-- overwriting an existing destination keeps its place -/
+example : (copy exF "a" "b").abs.map (fun e => (e.1, e.2.1)) = [("a", .bool), ("b", .bool)] := by
+  decide +kernel
+/-- hypotheses of `copy_self`, `copy_unknown`, `copy_badName` -/
+example : (exF.byName "a").isSome = true := by decide +kernel
+example : exF.err = none ∧ exF.byName "zzz" = none := ⟨rfl, by decide +kernel⟩
+example : exF.err = none ∧ exF.byName "a" = some exA ∧ "$c" ≠ "a" ∧ checkName "$c" = false :=
+  ⟨rfl, by decide +kernel, by decide +kernel, by decide +kernel⟩
+example : (copy exF "$c" "a").err = some .badName := by decide +kernel
+
+#print axioms slice_wf
+#print axioms slice_abs
+#print axioms slice_err
+#print axioms slice_len
+#print axioms select_wf
+#print axioms select_abs
+#print axioms select_names
+#print axioms select_err
+#print axioms select_abs_pure
+#print axioms drop_wf
+#print axioms drop_abs
+#print axioms drop_abs_general
+#print axioms copy_wf
+#print axioms copy_abs
+#print axioms copy_abs_lookup
+#print axioms copy_lookup
+#print axioms copy_self
+#print axioms copy_unknown
+#print axioms copy_badName
+#print axioms copy_abs_pure
+#print axioms slice_unique
+#print axioms select_unique
+#print axioms drop_unique
+#print axioms copy_unique
+#print axioms setColumn_unique
+#print axioms exF_wf
 
 end QF.Props.C08
